@@ -1120,6 +1120,56 @@ mod statics {
     }
 }
 
+// ---------------------------------------------------------------- the served directory is never modified (C13)
+mod fswatch {
+    use super::*;
+    fn snapshot(dir: &std::path::Path, out: &mut Vec<(String, u64, u64)>) {
+        let mut entries: Vec<_> = match std::fs::read_dir(dir) { Ok(r) => r.filter_map(|e| e.ok()).collect(), Err(_) => return };
+        entries.sort_by_key(|e| e.path());
+        for e in entries {
+            let p = e.path();
+            let md = match std::fs::symlink_metadata(&p) { Ok(m) => m, Err(_) => continue };
+            if md.is_dir() { out.push((format!("{}/", p.display()), 0, 0)); snapshot(&p, out); }
+            else {
+                let content = std::fs::read(&p).unwrap_or_default();
+                let mut hsh: u64 = 1469598103934665603;
+                for b in &content { hsh = (hsh ^ (*b as u64)).wrapping_mul(1099511628211); }
+                out.push((p.display().to_string(), content.len() as u64, hsh));
+            }
+        }
+    }
+    pub fn search() -> bool {
+        statics::setup();
+        let root = e2e::root();
+        let mut before = vec![];
+        snapshot(&root, &mut before);
+        // every request of the end-to-end corpus, the static-file cases, form posts and malformed input
+        for (_n, raw) in e2e::corpus().iter() { let _ = e2e::run(raw, 0, false); }
+        let _ = statics::search(1);
+        for raw in [&b"\xff\xfeGET / HTTP/1.1\r\n\r\n"[..], &b"GET\r\n\r\n"[..], &b""[..], &b"POST /file-upload/initiate?name=a.txt&lastModified=1&size=2 HTTP/1.1\r\n\r\n"[..],
+                    &b"POST /form-multipart-enctype-post-method HTTP/1.1\r\nContent-Type: multipart/form-data; boundary=xyz\r\nContent-Length: 80\r\n\r\n--xyz\r\nContent-Disposition: form-data; name=\"f\"; filename=\"index.html\"\r\n\r\nX\r\n--xyz--\r\n"[..],
+                    &b"PUT /a.txt HTTP/1.1\r\nContent-Length: 3\r\n\r\nabc"[..], &b"DELETE /a.txt HTTP/1.1\r\n\r\n"[..], &b"GET /nothing-here HTTP/1.1\r\n\r\n"[..]] {
+            let _ = e2e::run(raw, 0, false);
+        }
+        // statics::search sets the tree up again: compare against a snapshot of a fresh setup
+        let mut expected = vec![];
+        {
+            // what a fresh setup looks like (the requests above must not have added, removed or changed anything)
+            let mut after = vec![];
+            snapshot(&root, &mut after);
+            statics::setup();
+            snapshot(&root, &mut expected);
+            let mut h = Hits::new();
+            let names = |v: &Vec<(String, u64, u64)>| v.iter().map(|x| x.0.clone()).collect::<std::collections::BTreeSet<_>>();
+            for n in names(&after).difference(&names(&expected)) { h.hit("fswatch", "c13_created", "Server::process", n, "a file or directory appeared in the served tree"); }
+            for n in names(&expected).difference(&names(&after)) { h.hit("fswatch", "c13_removed", "Server::process", n, "a file or directory disappeared from the served tree"); }
+            for a in &after { if let Some(e) = expected.iter().find(|e| e.0 == a.0) { if e != a { h.hit("fswatch", "c13_modified", "Server::process", &a.0, &format!("{} bytes (hash {:x}) instead of {} bytes (hash {:x})", a.1, a.2, e.1, e.2)); } } }
+            let _ = before;
+            return h.n > 0;
+        }
+    }
+}
+
 // ---------------------------------------------------------------- multipart/form-data round trip (C16)
 mod mpform {
     use super::*;
@@ -1287,6 +1337,7 @@ pub fn dispatch(args: &[String]) -> i32 {
         ("search", "shims") => shimtest::search(args.get(2).and_then(|s| s.parse().ok()).unwrap_or(1)),
         ("search", "parsers") => parsers::search(args.get(2).and_then(|s| s.parse().ok()).unwrap_or(1)),
         ("search", "stack") => stack::search(),
+        ("search", "fswatch") => fswatch::search(),
         ("search", "statics") => statics::search(1),
         ("replay", "statics") => statics::replay(&args[2], &args[3]),
         ("search", "ranges") => statics::search_ranges(1),
